@@ -156,6 +156,10 @@ def _idempotence_oracle(name, doc, out, exc, kw):
             probs.append(("second-pass-raises", f"ndigits={nd}: converting the converted document raised {type(e).__name__}: {str(e)[:80]}"))
             break
         if one != two or two != three:
+            from bounded import oracles
+
+            if not name.startswith("pinned:") and oracles.canonical_modulo_gradient_ids(one) == oracles.canonical_modulo_gradient_ids(two) == oracles.canonical_modulo_gradient_ids(three):
+                continue  # only the order of gradients inside defs differs: recorded finding (pinned document defs_order_unstable)
             probs.append(("not-idempotent", f"ndigits={nd}: pass 1 {'!=' if one != two else '=='} pass 2 {'!=' if two != three else '=='} pass 3"))
             break
         bad = SVG.fromstring(one).checkpicosvg(**{k: v for k, v in kw.items() if k in ("allow_text",)})
@@ -166,7 +170,7 @@ def _idempotence_oracle(name, doc, out, exc, kw):
 
 
 _mk("C07", "idempotence", ("structural", "clipped", "cascade", "gradients", "stroked"), _idempotence_oracle, "pass 1 vs pass 2 vs pass 3 byte for byte at ndigits 3, 0 (2 where opacities occur), 6; checkpicosvg() == ()",
-    pinned=("opacity_group_loses_sibling", "zero_opacity_outer_group"))
+    pinned=("opacity_group_loses_sibling", "zero_opacity_outer_group", "defs_order_unstable"))
 
 
 def _reference_oracle(name, doc, out, exc, kw):
@@ -293,7 +297,7 @@ def _noise_oracle(name, doc, out, exc, kw):
 
     rnd = random.Random(name)
     probs = []
-    base = oracles.canonical_modulo_gradient_ids(out) if out is not None else None
+    base = out
     # hand-written documents get every kind of noise, one at a time; generated ones three random kinds, three times
     for kinds, noisy in noise_variants(doc, rnd, each_kind=name.startswith("corpus:")):
         try:
@@ -305,7 +309,7 @@ def _noise_oracle(name, doc, out, exc, kw):
         if exc is not None:
             probs.append(("noise-fixes-conversion", f"with noise {kinds} the conversion succeeds although the clean document raises {type(exc).__name__}"))
             continue
-        if oracles.canonical_modulo_gradient_ids(o2) != base:
+        if not oracles.equivalent_modulo_gradients(o2, base):
             probs.append(("noise-changes-output:" + "+".join(sorted(kinds)), f"noise {kinds} changes the converted document"))
     return probs[:1]
 
